@@ -55,7 +55,18 @@ pub fn run(k: &str, c: &Value) -> Value {
             let sp = fx(&c["spacing"]);
             let s2 = s.clone(); let resx = guard(move || ser(&s2.resampled_x(sp)));
             let s2 = s.clone(); let bnds = guard(move || json!(s2.bounds_at_y0().iter().map(|i| json!([hx(i.min), hx(i.max)])).collect::<Vec<_>>()));
-            json!({"interp": interp, "after": after, "scaled": scaled, "shifted": shifted, "between": between, "split": split,
+            // further derived series: NaN removal (ordinates listed in "nan_at" are replaced by NaN first), the interval form of a slice,
+            // absolute value, derivative, smoothing
+            let nan_at: Vec<usize> = c["nan_at"].as_array().map(|a| a.iter().map(us).collect()).unwrap_or_default();
+            let s2 = s.clone(); let nan_at2 = nan_at.clone();
+            let removed = guard(move || { let mut ys = s2.xys().map(|(_, y)| *y).collect::<Vec<_>>(); for i in &nan_at2 { if *i < ys.len() { ys[*i] = f64::NAN; } }
+                let xs: Vec<f64> = s2.xys().map(|(x, _)| *x).collect(); let t = Series1::try_new(xs, ys).unwrap();
+                json!({"has_nan": t.has_nan(), "out": ser(&t.remove_nan())}) });
+            let s2 = s.clone(); let in_iv = guard(move || ser(&s2.in_interval(engeom::common::Interval::new(x0, x1))));
+            let s2 = s.clone(); let abs_s = guard(move || ser(&s2.abs()));
+            let s2 = s.clone(); let dydx = guard(move || ser(&s2.dydx()));
+            json!({"removed": removed, "in_interval": in_iv, "abs": abs_s, "dydx": dydx,
+                   "interp": interp, "after": after, "scaled": scaled, "shifted": shifted, "between": between, "split": split,
                    "area": area, "split_areas": split_areas, "cross": cross, "resampled": res, "resampled_x": resx, "bounds_y0": bnds})
         }
         _ => json!({"unknown": k}),
